@@ -64,6 +64,17 @@ pub fn from_slice_mode<'a, T: de::Deserialize<'a>>(b: &'a [u8], mode: StructMode
     Ok(v)
 }
 
+/// `Deserialize::deserialize_in_place`: the value is written into an existing object (which has a
+/// history of its own) instead of being built from nothing
+pub fn from_slice_in_place<'a, T: de::Deserialize<'a>>(b: &'a [u8], mode: StructMode, place: &mut T) -> Result<(), Error> {
+    let mut d = De { inp: b, mode };
+    de::Deserialize::deserialize_in_place(&mut d, place)?;
+    if !d.inp.is_empty() {
+        return Err(Error(format!("{} trailing bytes", d.inp.len())));
+    }
+    Ok(())
+}
+
 pub struct Ser {
     out: Vec<u8>,
     mode: StructMode,
